@@ -46,7 +46,9 @@ def handle (j : Json) : R Json := do
   | "describe" =>
     let t ← parseTables (← fld j "oracle")
     let n ← parseNode t (← fld j "node")
-    return Json.mkObj [("report", jarr ((describe predef n).map modDescJson))]
+    let classes := (n.filter (·.exported)).map (fun m => Json.mkObj [("m", Json.str m.name),
+      ("ic", jstrs (interfaceClassesOf Generated.C06.secopBaseClasses m.mro)), ("features", jstrs (featuresOf m.mro))])
+    return Json.mkObj [("report", jarr ((describe predef n).map modDescJson)), ("classes", jarr classes)]
   | "judge" =>
     let t ← parseTables (← fld j "oracle")
     let n ← parseNode t (← fld j "node")
@@ -54,6 +56,14 @@ def handle (j : Json) : R Json := do
     let r2 ← parseReport (← fld j "report2")
     if !(stableB r1 r2) then return Json.mkObj [("bad", jarr [Json.str "unstable", jnat 0, Json.str ""])]
     if !(listsExactlyB predef n r1) then return Json.mkObj [("bad", jarr [Json.str "lists", jnat 0, Json.str ""])]
+    -- interface class and features against the class chain of the implementing class
+    for c in ← fldArr j "classes" do
+      let m ← fldStr c "m"
+      match findModule n m with
+      | none => return Json.mkObj [("bad", jarr [Json.str "class-props", jnat 0, Json.str m])]
+      | some mod =>
+        if !(classPropsB Generated.C06.secopBaseClasses mod.mro (← fldStrs c "ic") (← fldStrs c "features")) then
+          return Json.mkObj [("bad", jarr [Json.str "class-props", jnat 0, Json.str m])]
     let env := mkEnv t .none
     let mut i := 0
     -- requests: report against behaviour
